@@ -63,6 +63,22 @@ class Thing(object):
         return "Thing(%r)" % (self.x,)
 
 
+class NoBool(Thing):
+    """Like an array or a lazy query: asking for its truth value or length raises."""
+
+    def __bool__(self):
+        raise ValueError("the truth value of this object is ambiguous")
+
+    def __len__(self):
+        raise ValueError("len() of this object is not available")
+
+    def __eq__(self, other):
+        return isinstance(other, NoBool) and other.x == self.x
+
+    def __repr__(self):
+        return "NoBool(%r)" % (self.x,)
+
+
 class SerFault(Exception):
     pass
 
@@ -87,6 +103,7 @@ SERS = {
     "len": (lambda v: len(v), "sized"),
     "keys": (lambda v: sorted(v), "dict"),
     "thing": (lambda v: v.x, "thing"),
+    "nobool": (lambda v: v.x, "nobool"),
     # Field.for_types / fields(k=type): eliot's own pass-through serializer
     "ftypes": (lambda v: v, "native"),
 }
@@ -102,6 +119,8 @@ def value_for(kind):
         return st.dictionaries(st.sampled_from(["a", "b", "c"]), st.integers(0, 3), max_size=3)
     if kind == "thing":
         return st.integers(0, 9).map(lambda x: {V.TAG: "thing", "x": x})
+    if kind == "nobool":
+        return st.integers(0, 9).map(lambda x: {V.TAG: "nobool", "x": x})
     if kind == "native":
         return st.one_of(st.integers(-3, 3), st.text(max_size=3), st.lists(st.integers(0, 2), max_size=2), st.just({"k": [1]}), st.none())
     return st.one_of(st.integers(-3, 3), st.text(max_size=3), st.lists(st.integers(0, 2), max_size=2), st.just({"k": [1]}), st.none())
@@ -110,6 +129,8 @@ def value_for(kind):
 def decode(v):
     if isinstance(v, dict) and v.get(V.TAG) == "thing":
         return Thing(v["x"])
+    if isinstance(v, dict) and v.get(V.TAG) == "nobool":
+        return NoBool(v["x"])
     if isinstance(v, list):
         return [decode(x) for x in v]
     if isinstance(v, dict):
